@@ -973,7 +973,7 @@ fn malformed(run: &mut Run, rng: &mut Rng, thorough: bool) {
 pub fn run(opts: &Opts) -> Run {
     let mut run = Run::new("dec");
     let mut rng = Rng::new(opts.seed ^ 0xdec0de);
-    let n = if opts.thorough { 450 } else { 36 };
+    let n = if opts.thorough { 250 } else { 36 };
     let max = if opts.thorough { 300_000 } else { 30_000 };
     // the repository's decode corpus first (frames from zstd's decodecorpus generator)
     let corpus = gen::repo_corpus(if opts.thorough { 200_000 } else { 10_000 });
